@@ -24,6 +24,7 @@ import PGProofs.Assembly
 import PGProofs.BridgeTwoLocus
 import PGProofs.Marginal
 import PGProofs.RewardsThm
+import PGProofs.EndToEnd2
 
 set_option linter.all false
 set_option pp.fieldNotation.generalized false
@@ -73,6 +74,9 @@ theorem combined_tbl_locus : ∀ (n : ℕ) (s : State) (l : ℕ), Reward.eval n 
 /-- CombinedReward([TreeHeight, Locus l]) is the per-locus indicator -/
 theorem combined_height_locus : ∀ (n : ℕ) (s : State) (l : ℕ), Reward.eval n s (Reward.combined [Reward.treeHeight, Reward.locus l]) = Reward.eval n s (Reward.locus l) := @PG.combined_height_locus'
 
+/-- CAPSTONE (two loci): what moment(...) returns on the two-locus graph equals the labelled ARG combination -/
+theorem end_to_end_two_locus : type_of% @PG.EndToEnd.two_locus_moment_call_eq_labelled := @PG.EndToEnd.two_locus_moment_call_eq_labelled   -- (printed statement does not re-elaborate; see the source lemma)
+
 end PG.C06
 
 #print axioms PG.C06.arg_eq_labelled_any_linkage
@@ -89,3 +93,4 @@ end PG.C06
 #print axioms PG.C06.tbl_sum_of_loci
 #print axioms PG.C06.combined_tbl_locus
 #print axioms PG.C06.combined_height_locus
+#print axioms PG.C06.end_to_end_two_locus
